@@ -13,6 +13,7 @@ from .. import env
 from ..ref import isa, sigmsg
 
 ID = 'C14'
+BUILDER_DEFAULTS = True     # tools.* goes through tsverif/omit.py
 RULE = ('chains of length 1..6 (single lock for length 1 as well); begin/end '
         'placed so that t hits begin-1, begin, begin+1, end-1, end, end+1 for '
         'each link in turn; t on both sides of now+threshold; all may-delegate '
